@@ -59,7 +59,13 @@ def main():
             status = line.split()[0] if line else "?"
             m = re.search(r"violations=(\d+) \(no-input=(\d+)\)", line)
             detail = f"{m.group(1)} violation line(s), {m.group(2)} without failing input" if m else line[:80]
-            if meta.get("expect") == "not-flagged" and chk == p:
+            if status.startswith("PATCH-FAILED") and meta.get("superseded_by"):
+                status = "SUPERSEDED"
+                detail = "no longer applies to the current tree; regenerated as " + meta["superseded_by"]
+            harmless = (meta.get("expect") == "not-flagged" or "equivalent_mutant" in meta
+                        or str(meta.get("what", "")).lower().startswith("harmless") or str(meta.get("caught")) == "False" and "equivalent" in json.dumps(meta).lower())
+            if harmless and chk == p:
+                meta.setdefault("expect_why", str(meta.get("equivalent_mutant") or meta.get("what") or "")[:200])
                 status = "NOT-FLAGGED(expected)" if status == "MISSED" else "FLAGGED(unexpected)"
                 detail += "; " + meta.get("expect_why", "")
             rows.append((name, p if chk == p else f"{p} (also run: {chk})", status, detail))
